@@ -26,8 +26,41 @@ def fs_log(it: Any) -> List[Any]:
     return it.path.cache.setdefault(("fs-log",), [])
 
 
+def label(p: Any) -> str:
+    d = getattr(p, "data", {}) or {}
+    if d.get("label"):
+        return d["label"]
+    if "str" in d:
+        return "Path(str)"
+    par = d.get("parent")
+    if par is not None:
+        pl = label(par)
+        if d.get("suffix"):
+            return pl + ".tmp-suffix"
+        return pl + "/x"
+    t = p.ident
+    if z3.is_const(t) and t.decl().kind() == z3.Z3_OP_UNINTERPRETED:
+        return str(t)
+    return "path"
+
+
+def trace_of(it: Any) -> str:
+    return "".join(f"{op}:{label(p)};" for op, p in fs_log(it))
+
+
 def _touch(it: Any, op: str, p: VExt) -> None:
     fs_log(it).append((op, p))
+    inv = getattr(it.unit, "fs_invariant", None)
+    if inv and not it.path.temps:
+        # the protocol invariant is checked after *every* file-system step (= at every crash point)
+        import importlib
+        from pyvc.path import Obligation
+        modname, _, fname = inv.partition(":")
+        ok = bool(getattr(importlib.import_module(modname), fname)(trace_of(it)))
+        tgt = getattr(it.unit, "target", "?")
+        o = Obligation(f"{tgt}:fs-invariant@{op}:{label(p)}", "fs-invariant", tgt, 0,
+                       f"{fname}(trace) holds after the step {op}:{label(p)}")
+        it.path.oblige(z3.BoolVal(ok), o)
 
 
 def _path_child(it: Any, base: VExt, name: VStr, how: str = "div") -> VExt:
@@ -64,7 +97,7 @@ def install(engine: Any) -> None:
     em[("ASTTokens", "get_text_range")] = get_text_range
 
     def atok_tree(it, base, node, fr):
-        return VExt("ast.AST", z3.Function("asttokens_tree", z3.IntSort(), z3.IntSort())(base.ident))
+        return VExt("ast.Module", z3.Function("asttokens_tree", z3.IntSort(), z3.IntSort())(base.ident))
 
     engine.ext_attrs[("ASTTokens", "tree")] = atok_tree
 
@@ -91,18 +124,31 @@ def install(engine: Any) -> None:
     engine.ext_attrs[("Path", "parent")] = path_parent
     engine.ext_attrs[("Path", "name")] = path_name
 
-    # ---- pathlib
+    # ---- pathlib: the kind of a path (absent / file / directory) is a function of the path and of the
+    # number of mutations this run applied to that path; other paths are unaffected (assumption)
+    def _epoch(it, base):
+        return it.path.cache.setdefault(("fs-epoch", base.ident.sexpr()), 0)
+
+    def _kind(it, base, what):
+        f = z3.Function("fs_" + what, z3.IntSort(), z3.IntSort(), z3.BoolSort())
+        e = _epoch(it, base)
+        ex = z3.Function("fs_exists", z3.IntSort(), z3.IntSort(), z3.BoolSort())(base.ident, e)
+        isf = z3.Function("fs_is_file", z3.IntSort(), z3.IntSort(), z3.BoolSort())(base.ident, e)
+        isd = z3.Function("fs_is_dir", z3.IntSort(), z3.IntSort(), z3.BoolSort())(base.ident, e)
+        it.path.add_fact(z3.And(z3.Implies(isf, ex), z3.Implies(isd, ex), z3.Not(z3.And(isf, isd))))
+        return f(base.ident, e)
+
     def p_exists(it, base, args, kwargs, node, fr):
         _touch(it, "exists", base)
-        return VBool(z3.Bool(it.path.fresh_name("$exists")))
+        return VBool(_kind(it, base, "exists"))
 
     def p_is_file(it, base, args, kwargs, node, fr):
         _touch(it, "is_file", base)
-        return VBool(z3.Bool(it.path.fresh_name("$is_file")))
+        return VBool(_kind(it, base, "is_file"))
 
     def p_is_dir(it, base, args, kwargs, node, fr):
         _touch(it, "is_dir", base)
-        return VBool(z3.Bool(it.path.fresh_name("$is_dir")))
+        return VBool(_kind(it, base, "is_dir"))
 
     def p_read_text(it, base, args, kwargs, node, fr):
         _touch(it, "read", base)
@@ -117,6 +163,9 @@ def install(engine: Any) -> None:
 
     def p_mkdir(it, base, args, kwargs, node, fr):
         _touch(it, "mkdir", base)
+        it.path.cache[("fs-epoch", base.ident.sexpr())] = _epoch(it, base) + 1
+        it.path.add_fact(_kind(it, base, "is_dir"))
+        it.note_assumption("Path.mkdir(parents=True, exist_ok=True) succeeds (OS errors are outside the contracts)")
         return NONE
 
     def p_rename(it, base, args, kwargs, node, fr):
@@ -129,7 +178,9 @@ def install(engine: Any) -> None:
         return NONE
 
     def p_with_suffix(it, base, args, kwargs, node, fr):
-        return _path_child(it, base, it.as_str(args[0], node, fr), "with_suffix")
+        e = _path_child(it, base, it.as_str(args[0], node, fr), "with_suffix")
+        e.data["suffix"] = True
+        return e
 
     def p_write_text(it, base, args, kwargs, node, fr):
         _touch(it, "write", base)
@@ -172,9 +223,32 @@ def install(engine: Any) -> None:
 
     def bi_pickle_dump(self, args, kwargs, node, fr):
         fid = args[1]
+        if self.path.choose():
+            # the write may fail half way (disk full, unpicklable object): the file stays partial
+            raise RaiseEx(VExc("OSError", [self.opaque_str("dump-failed")]), node)
         if isinstance(fid, VExt) and "path" in fid.data:
             _touch(self, "dump-complete", fid.data["path"])
         return NONE
+
+    def bi_asttokens_ASTTokens(self, args, kwargs, node, fr):
+        src = self.as_str(args[0], node, fr)
+        if self.path.choose():
+            # any exception type: SyntaxError for invalid Python, ValueError e.g. for NUL bytes, ...
+            kind = "SyntaxError" if self.path.choose() else "ValueError"
+            raise RaiseEx(VExc(kind, [self.opaque_str("parse-error")]), node)
+        a = VExt("asttokens.ASTTokens", z3.Function("asttokens_of", SEQ, z3.IntSort())(src.t))
+        text = z3.Function("asttokens_text", z3.IntSort(), SEQ)(a.ident)
+        self.path.add_fact(text == src.t)
+        self.note_assumption("asttokens.ASTTokens(source, parse=True) raises or returns tokens whose text is the source")
+        return a
+
+    Interp.bi_asttokens_ASTTokens = bi_asttokens_ASTTokens
+
+    def h_fs_trace(it, node, fr):
+        return VStr(trace_of(it))
+
+    from pyvc.builtins import HELPERS
+    HELPERS["fs_trace"] = h_fs_trace
 
     Interp.bi_hashlib_sha256 = bi_hashlib_sha256
     Interp.bi_tempfile_gettempdir = bi_tempfile_gettempdir
